@@ -107,7 +107,7 @@ from ..core import OUT
 WORK = OUT / ".work"
 
 def gen(rng: random.Random, tier: str):
-    n = {"quick": 60, "thorough": 1500}[tier]
+    n = {"quick": 60, "thorough": 12000}[tier]
     # every crash point of a save over a fresh and over an existing directory, complete and torn writes
     for fresh in (True, False):
         for trial in range(1 if fresh else {"quick": 2, "thorough": 12}[tier]):
@@ -264,4 +264,4 @@ SPEC = CheckSpec(
     theorems=[f"LK.Persist.C15_Persist_{n}" for n in ["removal_phase_safe", "onlyFrom_load", "save_crash_safe", "save_fresh_crash_safe"]],
     correspondence_ops=["c15.crash", "c15.getstate", "c15.arrow_rt"],
     nontrivial_rule="distinct cases reaching ≥1 of: crash over fresh / existing directory × torn / clean × each load verdict; item lists (empty, string ids), collections (empty, with empty lists, differing fields), datasets (native, pickle)",
-    budgets={"quick": 60, "thorough": 1500}, gen=gen, run=run, shrink=None)
+    budgets={"quick": 60, "thorough": 12000}, gen=gen, run=run, shrink=None)
